@@ -1,4 +1,6 @@
 import SJ.Proofs.Tables
+import SJ.Proofs.Escape
+import SJ.Proofs.WalkSafe
 /-
 C10 — MarshalJSON emits valid JSON denoting the same document.
 -/
@@ -17,5 +19,26 @@ theorem C10_hex (n : Fin 16) : valToHex (UInt8.ofNat n.val) = (if n.val < 10 the
 theorem C10_escape_byte_safe : ∀ b : UInt8, (escapeByte b = [b] ∧ shouldEscape b = false) ∨
     (shouldEscape b = true ∧ (escapeByte b).head? = some 92 ∧ (escapeByte b).all (fun c => 0x20 ≤ c ∧ c < 0x7f) = true) :=
   forall_u8 (by decide +kernel)
+
+open SJ.Escape
+
+/-- **Escaping round-trips**: for every byte string, an RFC unescape of what `escapeBytes` emits gives the
+    original back. -/
+theorem C10_escape_roundtrip (s : List UInt8) : unescape ((s.map escapeByte).flatten) = some s := escape_roundtrip s
+theorem C10_escapeBytes (dst src : Bytes) :
+    (escapeBytes dst src).toList = dst.toList ++ (src.toList.map escapeByte).flatten := escapeBytes_eq dst src
+/-- No raw control character and no unescaped quote is ever emitted. -/
+theorem C10_no_specials (b : UInt8) :
+    (∀ c ∈ escapeByte b, 0x20 ≤ c) ∧ (34 ∈ escapeByte b → escapeByte b = [92, 34]) := escape_no_specials b
+/-- **Against the RFC specification**: a marshalled string (quote, escaped body, quote) is read by `Spec.value` as
+    exactly the source bytes, for every well-formed UTF-8 string; for other byte strings the verdict is `outside`,
+    never `reject`. -/
+theorem C10_string_valid (sb : Bytes) (hs : WFUtf8 sb.toList) (fuel : Nat) (rest : List UInt8) :
+    Spec.value (fuel + 1) ((Iter.quoted #[] sb).toList ++ rest) = .acc (.str sb.toList) rest := value_quoted sb hs fuel rest
+theorem C10_string_not_utf8 (s : List UInt8) (hs : ¬ WFUtf8 s) (fuel : Nat) (hf : s.length + 1 ≤ fuel) (rest : List UInt8) :
+    Spec.stringBody fuel ((s.map escapeByte).flatten ++ 34 :: rest) [] false = .out := stringBody_escape_not_utf8 s hs fuel hf rest
+/-- Marshalling never panics and always terminates, on any tape. -/
+theorem C10_marshal_total (pj : PJ) (i : Iter) (dst : Bytes) (hv : SJ.WalkSafe.Iter.Valid pj i) :
+    SJ.WalkSafe.OkOrErr (Iter.marshalBuf pj i dst) := SJ.WalkSafe.marshalBuf_safe pj i dst hv
 
 end SJ.Properties.C10
